@@ -60,6 +60,9 @@ class StmtMixin:
         v = self.ev(s.value, fr)
         for t in s.targets:
             self.assign(t, v, fr)
+        h = getattr(self, 'cut_hook', None)
+        if h is not None:
+            h(s, fr)
 
     def ex_AnnAssign(self, s, fr):
         if s.value is None:
